@@ -23,6 +23,12 @@ class filter:
     @staticmethod
     def candidates(hints):
         xs = [F(1), F(2), F(-1), F(3), F(5), F(-2), F(7)]
+        # zero values other than 0, one after the other in one process (the all-zero filter outputs the zero value of THIS call;
+        # the numerator history before the start is the zero value)
+        for zero in ("3", "7", "0", "-2"):
+            for b, a in (([0], [1]), ([], [1]), ([0, 0], [2]), ([1, 1], [1]), ([0, 1], [1, -1]), ([2, 0, 1], [1, 0, 1])):
+                for memkind in ("none", "list"):
+                    yield {"b": [str(v) for v in b], "a": [str(v) for v in a], "x": [str(v) for v in xs[:4]], "mem": memkind, "zero": zero}
         for la in (1, 2, 3):
             for lb in (1, 2, 3):
                 for b in itertools.product(CO, repeat=lb):
@@ -61,6 +67,8 @@ class filter:
             return "building the filtered stream read %d input items" % src.pulled
         g = iter(r[1])
         exp = model(b, a, x, mm, zero)
+        if not any(b) and not any(a[1:]):
+            exp = [F(zero)] * len(x)       # the all-zero filter outputs the zero value once per input (statement)
         got = []
         for n in range(len(x) + 1):
             rr = outcome(lambda: next(g))
